@@ -589,6 +589,8 @@ class _NP:
         return self.concatenate(xs, axis=0)
 
     def concatenate(self, xs, axis=0):
+        if any(isinstance(x, ConcatArr) for x in xs):
+            raise paths.OutOfReach("nested concatenation along a symbolic axis")
         xs = [_lift(x) for x in xs]
         if not any(isinstance(x, SymArr) for x in xs):
             return _np.concatenate(xs, axis=axis)
@@ -597,7 +599,9 @@ class _NP:
         if axis < 0:
             axis += nd
         if any(isinstance(x.axes[axis], Dim) for x in xs):
-            raise paths.OutOfReach("concatenate along a symbolic axis")
+            if axis == 0:
+                return ConcatArr(xs)
+            raise paths.OutOfReach("concatenate along a symbolic non-leading axis")
         base_axes = None
         for x in xs:
             ax = x.axes[:axis] + x.axes[axis + 1:]
@@ -644,6 +648,36 @@ class _NP:
 
     def linspace(self, *a, **k):
         return EXTERNAL_STUBS["linspace"](*a, **k)
+
+
+class ConcatArr:
+    """rows of several arrays stacked along a leading axis of which at least one part has symbolic extent.
+    Only what coxeter does with such a value is modelled: dropping the trailing single-row parts again
+    (x[:-1]) and handing it to an external routine (lstsq), whose assumed contract sees the parts."""
+
+    def __init__(self, parts):
+        self.parts = [SymArr.lift(p) for p in parts]
+
+    @property
+    def shape(self):
+        n = 0
+        for p in self.parts:
+            a = p.axes[0]
+            n = n + (a.size if isinstance(a, Dim) else a)
+        return (n,) + tuple(self.parts[0].shape[1:])
+
+    def __getitem__(self, idx):
+        if isinstance(idx, slice) and idx.start is None and idx.step is None and isinstance(idx.stop, int) and idx.stop < 0:
+            drop = -idx.stop
+            parts = list(self.parts)
+            while drop and parts and not isinstance(parts[-1].axes[0], Dim) and parts[-1].axes[0] <= drop:
+                drop -= parts[-1].axes[0]
+                parts.pop()
+            if drop == 0 and len(parts) == 1:
+                return parts[0]
+            if drop == 0:
+                return ConcatArr(parts)
+        raise paths.OutOfReach(f"index {idx!r} into rows concatenated along a symbolic axis")
 
 
 def _oor(what):
